@@ -5,7 +5,7 @@ EXTENDS Extends
 CONSTANTS N, ChainOnly   \* ChainOnly: only the graphs whose services are all on the chain that starts at the first one
 Nodes == 1..N
 Names == <<"a", "b", "c", "d", "e">>
-Dirs == <<<<>>, <<"sub">>>>
+Dirs == <<<<>>, <<"sub">>, <<"SUB">>>>     \* file 3 (chains only): the same file name in a directory that differs by letter case
 VARIABLES g, expectError
 \* loading the main file resolves every service of file 1
 Expect(gr) == \E n \in Nodes : gr[n].file = 1 /\ IsErrV(Resolve(gr, Dirs, n, {}))
@@ -13,12 +13,12 @@ Expect(gr) == \E n \in Nodes : gr[n].file = 1 /\ IsErrV(Resolve(gr, Dirs, n, {})
 \* while there are any): a reference is to a service of a file, never to a name alone
 Rank(file, n) == Cardinality({m \in Nodes : m < n /\ file[m] = file[n]}) + 1
 Kth(file, f, k) == CHOOSE m \in Nodes : file[m] = f /\ Rank(file, m) = k
-NameOf(file, reuse, n) == IF reuse /\ file[n] = 2 /\ Rank(file, n) <= Cardinality({m \in Nodes : file[m] = 1}) THEN Names[Kth(file, 1, Rank(file, n))] ELSE Names[n]
+NameOf(file, reuse, n) == IF reuse /\ file[n] # 1 /\ Rank(file, n) <= Cardinality({m \in Nodes : file[m] = 1}) THEN Names[Kth(file, 1, Rank(file, n))] ELSE Names[n]
 RECURSIVE ReachFrom(_, _, _)
 ReachFrom(ext, R, k) == IF k = 0 THEN R ELSE ReachFrom(ext, R \cup {ext[n] : n \in {m \in R : ext[m] > 0}}, k - 1)
-Init == \E file \in [Nodes -> {1, 2}] : \E ext \in [Nodes -> (-3)..N] : \E reuse \in BOOLEAN :
+Init == \E file \in [Nodes -> (IF ChainOnly THEN {1, 2, 3} ELSE {1, 2})] : \E ext \in [Nodes -> (-3)..N] : \E reuse \in BOOLEAN :
           /\ file[1] = 1
-          /\ reuse => \E n \in Nodes : file[n] = 2
+          /\ reuse => \E n \in Nodes : file[n] # 1
           /\ ChainOnly => ReachFrom(ext, {1}, N) = Nodes
           /\ g = [n \in Nodes |-> [file |-> file[n], name |-> NameOf(file, reuse, n), ext |-> ext[n], local |-> M1("image", S("img"))]]
           /\ expectError = Expect(g)
